@@ -30,6 +30,9 @@ MODES_BY_PROP = {
 # modes added to a property's list on top of its original ones: the original modes keep their number of cases
 ADDED_MODES = {"C01": ("resubmit",), "C02": ("resubmit", "nodefaults"), "C06": ("faults", "batchfaults", "flaky", "resubmit"),
                "C11": ("nodefaults",), "C12": ("nodefaults",)}
+# share of the scenarios of a mode in which submission groups ask for a multi-node allocation (fault-free modes only)
+MULTINODE_MODES = {"plain": .2, "busy": .2, "hooks": .3}
+NODEKINDS = ("node", "worker")
 MAX_USER_TRYSUBMITS = 10
 MAX_OPS = 1500
 # modes in which the fake scheduler may list a live batch under a state word outside JADE's table
@@ -155,6 +158,22 @@ def gen_resubmit_plan(rng, sc):
 # ----------------------------------------------------------------------------------------------
 # scenario generation
 # ----------------------------------------------------------------------------------------------
+def add_multinode(sc, mode):
+    """multi-node allocations (hpc.nodes >= 2): srun starts run-jobs on every node of a batch's allocation; only the
+    manager node (SLURM_NODEID 0) records results.  Drawn from a stream of its own, so that the scenarios without it are
+    the ones they always were."""
+    if mode not in MULTINODE_MODES or sc.get("local"):
+        return sc
+    r2 = random.Random(json.dumps(sc, sort_keys=True))
+    if r2.random() < float(os.environ.get("VERIF_MULTINODE") or MULTINODE_MODES[mode]):   # VERIF_MULTINODE: dev knob
+        for g in sc["groups"]:
+            if r2.random() < .7:
+                g["nodes"] = r2.choice([2, 2, 3])
+        if not any(g.get("nodes") for g in sc["groups"]):
+            sc["groups"][0]["nodes"] = 2
+    return sc
+
+
 def gen_scenario(rng, mode):
     n = rng.choice([2, 3, 3, 4, 4, 5, 5, 6, 7, 8])
     ng = rng.choice([1, 1, 1, 2, 2, 3])
@@ -198,6 +217,7 @@ def gen_scenario(rng, mode):
         sc["sharedHosts"] = True          # non-exclusive nodes: two batches of the submission on one host
     if mode == "resubmit":
         gen_resubmit_plan(rng, sc)
+    add_multinode(sc, mode)
     return sc
 
 
@@ -261,9 +281,9 @@ class Run:
         for p in vc.live():
             if vc.enabled(p.pid):
                 w = 1.0
-                if self.style == "nodes" and p.kind == "node":
+                if self.style == "nodes" and p.kind in NODEKINDS:
                     w = 4.0
-                if self.style == "submitters" and p.kind != "node":
+                if self.style == "submitters" and p.kind not in NODEKINDS:
                     w = 4.0
                 if self.style == "bursty" and self.last == ("step", p.pid):
                     w = 6.0
@@ -338,6 +358,13 @@ class Run:
             kind = e[1]
             if kind == "start":
                 self.on_start(e)
+            elif kind == "wstart":
+                self.on_wstart(e)
+            elif kind == "row" and vc.procs[e[2]].kind == "worker":
+                for prop in ("C03", "C08", "C01"):
+                    self.bad(prop, "multinode.worker_row", f"node {vc.procs[e[2]].env.get('SLURM_NODEID')} of the multi-node batch "
+                             f"{vc.procs[e[2]].batch} (not the manager node) recorded a result {tuple(e[4])} in {e[3]}: every node of the "
+                             "allocation runs the job, one result per job must be recorded")
             elif kind == "sbatch" and e[4] is not None:
                 self.on_sbatch(e)
             elif kind == "spawn" and e[3] == "submit":
@@ -370,6 +397,34 @@ class Run:
         lim = self.node_workers(batch)
         if lim is not None and live > lim:
             self.bad("C06", "node.workers", f"{live} job processes running on the node of batch {batch}, limit {lim}")
+
+    def on_wstart(self, e):
+        """a job's copy started on a non-manager node of a multi-node allocation: the node's own queue must respect the
+        process limit, start each job once, and start it only after the node's own copies of its in-batch blockers ended
+        and every blocker outside the batch has a recorded outcome"""
+        _, _, pid, batch, name, argv = e
+        j = jid(name)
+        mine = [jp for jp in self.vc.jobprocs if jp.node == pid]
+        if sum(1 for jp in mine if jp.name == name) > 1:
+            self.bad("C01", "multinode.started_twice", f"job {j} was started twice on one node of the multi-node batch {batch}")
+        live = sum(1 for jp in mine if jp.exited is None and jp.returncode is None)
+        lim = self.node_workers(batch)
+        if lim is not None and live > lim:
+            self.bad("C06", "node.workers", f"{live} job processes running on a non-manager node of batch {batch}, limit {lim}")
+        b = next((x for x in self.vc.slurm.values() if x["batch"] == batch), None)
+        inb = {k for k, _ in b["jobs"]} if b else set()
+        rows = {r[1] for r in self.vc.read_rows()}
+        ended_here = {jid(jp.name) for jp in mine if jp.returncode is not None or jp.exited is not None}
+        canceled_here = set()      # flagged jobs canceled in the node's queue never get a process
+        missing = [x for x in self.sc["jobs"][j]["blockers"] if (x in inb and x not in ended_here and x not in rows and x not in canceled_here)
+                   or (x not in inb and x not in rows)]
+        if missing:
+            started_here = {jid(jp.name) for jp in mine}
+            missing = [x for x in missing if x not in inb or x in started_here or not self.sc["jobs"][x]["cancel"]]
+        if missing:
+            for prop in self.order_props():
+                self.bad(prop, "multinode.start_before_blocker", f"job {j} started on a non-manager node of batch {batch} while blockers {missing} "
+                         "have neither ended on that node nor a recorded outcome")
 
     def order_props(self):
         """properties whose text demands dependency order in this mode"""
@@ -1107,13 +1162,13 @@ class Run:
                 for b in batches.values():
                     if b["pid"] == e[2]:
                         b["exits"].append(e[0])
-        node_pids = {p.pid: p for p in self.vc.procs.values() if p.kind == "node"}
+        node_pids = {p.pid: p for p in self.vc.procs.values() if p.kind in NODEKINDS}
         local = sc.get("local")
         units = list(node_pids.values()) if not local else [p for p in self.vc.procs.values() if p.kind == "submit"]
         for p in units:
             b = p.batch if not local else 0
             hs = [e for e in hooks if e[2] == p.pid]
-            starts = [e[0] for e in tr if e[1] == "start" and e[2] == p.pid]
+            starts = [e[0] for e in tr if e[1] in ("start", "wstart") and e[2] == p.pid]
             exits = [e[0] for e in tr if e[1] == "jobexit" and e[2] == p.pid]
             rowsw = [e[0] for e in tr if e[1] == "row" and e[2] == p.pid]
             finished = p.state == "exited"
@@ -1138,7 +1193,9 @@ class Run:
                 dist = True
                 if not kids and dist:
                     self.bad("C16", "hooks.block_trysubmit", f"the node of batch {b} finished without invoking try-submit-jobs")
-            if finished and not local:
+            if nt_late_check(self, p, hs, exits, tr):
+                self.bad("C16", "node_teardown.early", f"node teardown ran on a node of batch {b} before all its job processes had ended")
+            if finished and not local and p.kind == "node":
                 bj = next((x["jobs"] for x in self.vc.slurm.values() if x["node"] == p.pid), ())
                 have = {r[1] for r in self.vc.read_rows()}
                 lost = [k for k, _ in bj if k not in have]
@@ -1523,6 +1580,15 @@ class Run:
             "resubmit_now": sum(1 for op in self.ops if op[0] == "spawn" and op[1] == "resubmit" and len(op) > 6 and op[6] == "now"),
             "resubmit_now_alive": getattr(self, "resub_now_alive", 0),
             "late_faults": sum(1 for e in vc.trace if e[1] in ("killin", "failwrite") and e[-1] == "late"),
+            "worker_outlives_manager": sum(1 for i, e in enumerate(vc.trace) if e[1] == "procexit" and e[3] == "node"
+                                           and any(x[1] == "batchended" and x[3] == e[2] and
+                                                   any(y[1] == "procexit" and y[3] == "worker" for y in vc.trace[i + 1:i + 1 + k])
+                                                   for k, x in enumerate(vc.trace[i + 1:]))),
+            "worker_trysubmit_while_manager_runs": sum(
+                1 for e in vc.trace if e[1] == "spawn" and e[3] == "trysubmit" and vc.procs[e[2]].parent is not None
+                and vc.procs[vc.procs[e[2]].parent].kind == "worker"
+                and any(x[1] == "procexit" and x[3] == "node" and x[0] > e[0] and vc.procs[x[2]].batch == vc.procs[vc.procs[e[2]].parent].batch
+                        for x in vc.trace)),
         }
         hist = translate(self)
         return {"model": None, "obs": obs, "hist": hist}
@@ -1536,6 +1602,12 @@ CLUSTER_FILES = ("cluster_config.json", "job_status.json", "config_version.txt",
 #   prepare - Cluster.prepare_for_resubmission ("Locking is not required": complete submission, role held)
 #   reset   - ResultsAggregator.clear_results_for_resubmission rewrites processed_results.csv (same situation)
 UNLOCKED_BY_DESIGN = {"create": CLUSTER_FILES, "prepare": CLUSTER_FILES, "reset": ("processed_results.csv",)}
+
+
+def nt_late_check(run, p, hs, exits, tr):
+    """node teardown before the last job process of that node ended (decides for nodes that record no rows, too)"""
+    nt = [e for e in hs if e[3] == "node_teardown"]
+    return bool(nt) and any(x > nt[0][0] for x in exits)
 
 
 def lockset_audit(run):
@@ -1618,6 +1690,11 @@ def translate(run):
         return False
 
     promoted = set()
+    deferred = {}
+
+    def batch_ends_later(i, pid):
+        return any(x[1] == "batchended" and x[3] == pid for x in tr[i + 1:])
+
     for i, e in enumerate(tr):
         k = e[1]
         if k in ("demote", "markcomplete", "markcanceled") and not wrote_cfg_after(i, e[2]):
@@ -1721,8 +1798,14 @@ def translate(run):
         elif k == "demote":
             emit("demote", None, p=e[2])
         elif k == "procexit":
-            if e[3] in SUBKINDS or e[3] == "node":
+            if e[3] == "node" and batch_ends_later(i, e[2]):
+                deferred[e[2]] = ("exit", e[2])       # srun still waits for the other nodes: the batch stays listed
+            elif e[3] in SUBKINDS or e[3] == "node":
                 emit("exit", WILD, p=e[2])
+        elif k == "batchended":
+            d = deferred.pop(e[3], None)
+            if d:
+                emit(d[0], WILD, p=d[1])
         elif k == "startbatch":
             _, _, hid, bidx, npid = e
             b = vc.slurm[hid]
@@ -1732,7 +1815,12 @@ def translate(run):
         elif k == "start":
             emit("nodeStart", None, p=e[2], j=jid(e[4]))
         elif k in ("kill", "killin"):
-            emit("kill", WILD, p=e[2])
+            if kinds.get(e[2]) == "worker":
+                continue
+            if kinds.get(e[2]) == "node" and batch_ends_later(i, e[2]):
+                deferred[e[2]] = ("kill", e[2])
+            else:
+                emit("kill", WILD, p=e[2])
         elif k == "nodelost" and e[3] is None:
             emit("batchLost", WILD, h=e[2])
     # final observations
@@ -1789,6 +1877,7 @@ class SystemSuite(Suite):
             if prop in ("C03", "C04", "C02", "C08") and mode in ("plain", "busy") and i % 3 == 2:
                 from suites import sysgen
                 sc = sysgen.cancel_chain(rng)        # structured family: failing root + flagged chains across batches
+                add_multinode(sc, mode)
             if mode == "resubmit" and prop == "C07":
                 sc["resub"]["regroupProb"] = 1.0             # C07: every resubmission passes an edited groups file (-s)
             out.append({"op": "system.trace", "sc": sc, "mode": mode, "seed": rng.randrange(1 << 30),
@@ -1905,6 +1994,14 @@ class SystemSuite(Suite):
             t.append("squeue.odd_state_word")
         if o["events"].get("prepare"):
             t.append(f"resubmit.epochs={1 + o['events']['prepare']}")
+        if o["events"].get("startworker"):
+            t.append("multinode.batches")
+            if o["events"].get("wstart"):
+                t.append("multinode.worker_started_jobs")
+            if o.get("worker_outlives_manager"):
+                t.append("multinode.worker_outlives_manager")
+            if o.get("worker_trysubmit_while_manager_runs"):
+                t.append("multinode.worker_trysubmit_while_manager_runs")
         if case["sc"].get("sharedHosts"):
             t.append("hosts.shared")
         if o.get("style") == "slowext":
